@@ -43,6 +43,9 @@ FEATURES = [(n, re.compile(rx, re.M)) for n, rx in [
 ]]
 
 
+RESURRECT = re.compile(r" rmw add ctx\.wvn acqrel 0 1$", re.M)
+
+
 def _build():
     return build_exe("c05", SRCS, "vrt", REPO_CPP, extra_link=["-labsl_time_zone"],
                      extra_srcs_flags=[("vrt/vrt.cpp", ["-O1", "-g"])])
@@ -94,6 +97,20 @@ def _classify(ctx, mode, env, runs, dist, distinct, samples):
         if r["oracle"]:
             dist["oracle"] += 1
             kind = r["oracle"][0].split("ORACLE", 1)[1].split()[0]
+            # known finding oracle:inject:dup-flush = "a vertex closure is created on a closure whose vertex count has
+            # already returned to 0" (signature: `rmw add ctx.wvn acqrel 0 1`).  Its consequences are a second flush, a
+            # processor started by the late emitter that is still running when wait() returns, or one that starts after it;
+            # whichever of these three the harness reports first, it is that finding — and only with the signature present.
+            if mode == "inject" and kind in ("wait-early", "start-after-wait", "dup-flush"):
+                cyc = []          # the run/reset cycle in which the oracle fired
+                for l in r["lines"]:
+                    if " ev cycle " in l:
+                        cyc = []
+                    cyc.append(l)
+                    if l == r["oracle"][0]:
+                        break
+                if RESURRECT.search("\n".join(cyc)):
+                    kind = "dup-flush"
             ctx.failing_input("oracle:%s:%s" % ({"pool": "graph", "gatedpool": "gated"}.get(mode, mode), kind), text)
         elif r["verdict"] != "ok":
             ctx.failing_input("verdict:%s:%s" % (mode, r["verdict"].split()[0]), text + "\n" + r.get("stderr", ""))
